@@ -15,6 +15,7 @@
   * the receive loop: in Read (nothing arrives) until the socket is closed.
   The peer does nothing (it does not read and does not hang up): that is the situation the property is about.
 -/
+import SA.Model.StalledSession
 import SA.Base.Util
 import SA.Gen.C14Close
 namespace SA.CarrierClose
@@ -85,6 +86,7 @@ def lifeBlocked (toks : List String) : Option String :=
     let s := settle (init genPre true)
     s!"grow={live s} fd={if s.sockClosed then 0 else 1} blocked=true"
   match toks with
+  | ["tcp", "1", "blockS", "rstall"] => some StalledSession.rstall
   | [carrier, n, "blockS", ending] =>
       let k := n.toNat?.getD 0
       if carrier ∈ blockSCarriers ∧ ending ∈ ["garbage", "cut", "cutwait", "timeout"] ∧ k ≥ 1
